@@ -15,12 +15,12 @@
    th (th^N = phi) the applied phases are th^(N-1) and th^(mN-1).  TLC must reject those instances.      *)
 EXTENDS SupercellDefs
 
-CONSTANTS Shapes,      \* set of <<nx, ny, nz>>
-          Tilings,     \* set of <<mx, my, mz>>
+CONSTANTS Pairs,       \* set of << <<nx, ny, nz>>, <<mx, my, mz>> >> : lattice shape and tiling factors
           MaxT,        \* full steps
           Variant,
           Dense,       \* also run the dense (every entry non-zero, complex) initial state
-          Basis,       \* "all": every unit basis state of E and H; "origin": only those at cell (0,0,0)
+          Basis,       \* "all": every unit basis state of E and H; "origin": only those at cell (0,0,0);
+                       \* "auto": all for lattices of at most 3 cells, origin otherwise
           Singles      \* "all" | "first" | "none": which single-entry material perturbations are enumerated
 
 VARIABLES N, M, phi, th, mat, init, Es, Hs, Eb, Hb, pc, t
@@ -35,7 +35,8 @@ Mats(n) == { [ i \in 1..Size(n) |-> 1 ] } \cup { [ i \in 1..Size(n) |-> Checker(
                          k \in IF Singles = "all" THEN 1..Size(n) ELSE IF Singles = "first" THEN {1} ELSE {} }
 Inits(n) == (IF Dense THEN { << "dense", 0 >> } ELSE {})
             \cup { << f, k >> : f \in {"E", "H"},
-                                k \in { k \in 1..Size(n) : Basis = "all" \/ (k - 1) % Cells(n) = 0 } }
+                                k \in { k \in 1..Size(n) : \/ Basis = "all" \/ (Basis = "auto" /\ Cells(n) <= 3)
+                                                            \/ (k - 1) % Cells(n) = 0 } }
 DenseVal(i, n, s) == << 1 + Comp(i, n) + 2 * Coord(i, n, 1) + 3 * Coord(i, n, 2) + Coord(i, n, 3) + s,
                         Coord(i, n, 1) - Comp(i, n) + 2 * s - Coord(i, n, 3) >>
 Field0(n, ini, f) ==
@@ -50,8 +51,7 @@ PhBig   == IF Variant = "L_short"
            ELSE BigPhase(phi, M)
 NB == Mul3(N, M)
 
-Init == /\ N \in Shapes /\ M \in Tilings
-        /\ \A a \in 1..3 : N[a] = 1 => M[a] \in {1, 2}
+Init == /\ << N, M >> \in Pairs
         /\ phi \in { << u1, u2, u3 >> : u1 \in PhaseChoices(N[1], M[1]), u2 \in PhaseChoices(N[2], M[2]),
                                         u3 \in PhaseChoices(N[3], M[3]) }
         /\ th \in IF Variant = "L_short"
@@ -89,14 +89,11 @@ BigIsQuasiPeriodic ==
 Frozen == Es = Field0(N, init, "E") /\ Hs = Field0(N, init, "H")
 
 \* ---------- bounded instances (a .cfg cannot hold tuples: the cfgs substitute these) ----------
-ShapesQ  == { <<2,1,1>>, <<3,1,1>> }
-TilingsQ == { <<2,1,1>>, <<3,1,1>> }
-ShapesT  == { <<2,1,1>>, <<3,1,1>>, <<1,2,1>>, <<1,3,1>>, <<1,1,2>>, <<1,1,3>>, <<2,2,1>>, <<3,2,1>>, <<2,1,3>>,
-              <<1,2,2>>, <<2,2,2>> }
-TilingsT == { <<2,1,1>>, <<3,1,1>>, <<1,2,1>>, <<1,3,1>>, <<1,1,2>>, <<1,1,3>>, <<2,2,1>>, <<2,1,2>>, <<1,2,2>>,
-              <<3,2,1>>, <<2,1,3>> }
-Shapes2  == { <<2,2,1>> }
-Tilings2 == { <<2,2,1>> }
-ShapesN  == { <<2,1,1>>, <<3,1,1>> }
-TilingsN == { <<2,1,1>> }
+Cross(S, T) == { << n, m >> : n \in S, m \in T }
+OneD   == Cross({ <<2,1,1>>, <<3,1,1>> }, { <<2,1,1>>, <<3,1,1>> })
+PairsQ == OneD \cup { << <<2,2,1>>, <<2,2,1>> >> }
+PairsT == Cross({ <<2,1,1>>, <<3,1,1>>, <<1,2,1>>, <<1,1,3>> }, { <<2,1,1>>, <<3,1,1>>, <<1,2,1>>, <<1,1,2>>, <<1,1,3>> })
+          \cup Cross({ <<2,2,1>>, <<3,2,1>>, <<2,1,3>>, <<1,2,2>> }, { <<2,2,1>>, <<2,1,2>>, <<1,2,2>>, <<3,2,1>> })
+          \cup { << <<2,2,2>>, <<2,2,2>> >> }
+PairsN == { << <<2,1,1>>, <<2,1,1>> >>, << <<3,1,1>>, <<2,1,1>> >> }
 =============================================================================
